@@ -391,7 +391,9 @@ var vfC16Shapes = []vfC16Shape{
 	{"serve+fs-path", func(x *vfC16ReqWorld) string { return vfC16ServeURL + x.U.Loc }, "", false},
 	{"dotdot-to-upload", func(x *vfC16ReqWorld) string { return vfC16ServeURL + "x/../" + x.U.ID.String() }, "U", false},
 	{"dotdot-roundtrip", func(x *vfC16ReqWorld) string { return vfC16ServeURL + "../s/" + x.U.ID.String() }, "U", false},
-	{"dotdot-escape", func(x *vfC16ReqWorld) string { return vfC16ServeURL + "../../../.." + filepath.Join(x.proc, "outside.txt") }, "", false},
+	{"dotdot-escape", func(x *vfC16ReqWorld) string {
+		return vfC16ServeURL + "../../../.." + filepath.Join(x.proc, "outside.txt")
+	}, "", false},
 	{"dotdot-secret", func(x *vfC16ReqWorld) string { return vfC16ServeURL + "../s/secret.txt" }, "", false},
 	{"secret-name", func(x *vfC16ReqWorld) string { return vfC16ServeURL + "secret.txt" }, "", false},
 	{"dot", func(x *vfC16ReqWorld) string { return vfC16ServeURL + "." }, "", false},
@@ -949,7 +951,9 @@ func TestVerifC16Requests(t *testing.T) {
 	defer os.RemoveAll(base)
 	shard, shards := vfev.Shard()
 	cases := vfC16Cases()
-	r.Count("cases_total_all_shards", int64(len(cases))/int64(shards)) // sums to ~total over the shards
+	if shard == 0 {
+		r.Count("cases_in_product", int64(len(cases)))
+	}
 	for i, c := range cases {
 		if i%shards != shard {
 			continue
@@ -964,6 +968,9 @@ func TestVerifC16Requests(t *testing.T) {
 		r.Count("cases:"+c.Endpoint, 1)
 		if outcome != "" {
 			r.Outcome(outcome)
+			if c.Endpoint == "download" && c.Method == "GET" && c.Key == "valid" && c.Cred == "token" && c.KeyAt == "header" && c.CredAt == "xauth" {
+				r.Count("authorised GET "+vfC16Shapes[c.Shape].Name+" -> "+outcome[strings.LastIndex(outcome, ":")+1:], 1)
+			}
 		}
 		if res.Status == "harness" {
 			r.Fail("harness: " + c.String() + ": " + res.Detail)
@@ -981,5 +988,542 @@ func TestVerifC16Requests(t *testing.T) {
 	}
 	r.Note("OPTIONS preflights are answered before the security checks by design: only checked to be harmless")
 	r.Note("pruned: form placement for downloads; body sizes for uploads without a file part; size 'small' only with valid key+credentials")
-	_ = time.Second
+}
+
+// =============================================================================================
+// Part 2: xstate model "files"
+
+type vfC16FOp struct {
+	Name  string
+	Kind  string // upload failed pub tavatar uavatar delmsg deltopic gc age
+	User  string // o | m
+	Slots []int
+	Arg   int
+}
+
+var vfC16FOps = []vfC16FOp{
+	{"upload(f1 by o)", "upload", "o", []int{0}, 0},
+	{"upload(f2 by m)", "upload", "m", []int{1}, 0},
+	{"failed-upload(f1)", "failed", "o", []int{0}, 0},
+	{"o:pub[f1]", "pub", "o", []int{0}, 0},
+	{"m:pub[f2]", "pub", "m", []int{1}, 0},
+	{"o:pub[f1,f2]", "pub", "o", []int{0, 1}, 0},
+	{"o:set topic avatar f1", "tavatar", "o", []int{0}, 0},
+	{"m:set account avatar f2", "uavatar", "m", []int{1}, 0},
+	{"o:set topic avatar f2", "tavatar", "o", []int{1}, 0},
+	{"o:hard-delete msg 1", "delmsg", "o", nil, 1},
+	{"o:hard-delete msg 2", "delmsg", "o", nil, 2},
+	{"o:delete topic (hard)", "deltopic", "o", nil, 0},
+	{"gc(cut-off 1h ago)", "gc", "", nil, -1},
+	{"gc(cut-off in 1h)", "gc", "", nil, +1},
+	{"2 hours pass", "age", "", nil, 0},
+}
+
+func (o vfC16FOp) site() string {
+	switch o.Kind {
+	case "pub", "tavatar", "uavatar":
+		var l []string
+		for _, s := range o.Slots {
+			l = append(l, fmt.Sprintf("f%d", s+1))
+		}
+		return map[string]string{"pub": "pub", "tavatar": "topic-avatar", "uavatar": "account-avatar"}[o.Kind] + "[" + strings.Join(l, ",") + "]"
+	case "delmsg":
+		return "del-msg"
+	case "deltopic":
+		return "del-topic"
+	case "failed":
+		return "failed-upload"
+	}
+	return o.Kind
+}
+
+type vfC16FUp struct {
+	N     int
+	ID    types.Uid
+	URL   string
+	Bytes []byte
+	Loc   string
+	Old   bool
+	Gone  bool     // collected
+	Extra []string // links the implementation holds beyond the model (after a reported violation)
+}
+
+type vfC16FMsg struct {
+	Att     []*vfC16FUp
+	Deleted bool
+}
+
+type vfC16FModel struct {
+	Ups         []*vfC16FUp
+	Slot        [2]*vfC16FUp
+	SlotURL     [2]string
+	Msgs        map[int]*vfC16FMsg
+	TopicAlive  bool
+	TopicAvatar *vfC16FUp
+	UserAvatar  *vfC16FUp
+	TopicRef    string
+	UserRef     string
+}
+
+// well-formed ids which were never issued (one per slot)
+var vfC16FakeURL = [2]string{vfC16ServeURL + "AAAAAAAAAAE", vfC16ServeURL + "AAAAAAAAAAI"}
+
+func (m *vfC16FModel) url(slot int) string {
+	if m.SlotURL[slot] == "" {
+		return vfC16FakeURL[slot]
+	}
+	return m.SlotURL[slot]
+}
+
+func (m *vfC16FModel) live(slot int) *vfC16FUp {
+	if u := m.Slot[slot]; u != nil && !u.Gone {
+		return u
+	}
+	return nil
+}
+
+// links is the reference: what an upload is linked to.
+func (m *vfC16FModel) links(u *vfC16FUp) []string {
+	var out []string
+	if m.TopicAlive {
+		var seqs []int
+		for s := range m.Msgs {
+			seqs = append(seqs, s)
+		}
+		sort.Ints(seqs)
+		for _, s := range seqs {
+			if msg := m.Msgs[s]; !msg.Deleted {
+				for _, a := range msg.Att {
+					if a == u {
+						out = append(out, fmt.Sprintf("msg:%d", s))
+						break
+					}
+				}
+			}
+		}
+		if m.TopicAvatar == u {
+			out = append(out, "topic")
+		}
+	}
+	if m.UserAvatar == u {
+		out = append(out, "user")
+	}
+	out = append(out, u.Extra...)
+	sort.Strings(out)
+	return out
+}
+
+type vfC16FWorld struct {
+	*vfC16World
+	users map[string]*vfUser
+	cl    map[string]*vfClient
+	grp   string
+}
+
+func vfC16FSetup() *vfC16FWorld {
+	x := &vfC16FWorld{vfC16World: vfC16Boot(), users: map[string]*vfUser{}, cl: map[string]*vfClient{}}
+	for _, n := range []string{"o", "m"} {
+		x.users[n] = x.w.vfMakeUser(n, auth.LevelAuth, map[string]any{"fn": n})
+		c := x.w.vfConnect(n)
+		vsched.Quiesce()
+		if code := c.Login(x.users[n]); code != 200 {
+			vsched.Fail("harness", fmt.Sprintf("login %s: %d", n, code))
+		}
+		x.cl[n] = c
+	}
+	code, fr := x.cl["o"].Req(`{"sub":{"id":"$ID","topic":"new1","set":{"desc":{"public":{"fn":"G"}}}}}`)
+	if code != 200 {
+		vsched.Fail("harness", fmt.Sprintf("create group: %d", code))
+	}
+	for _, f := range fr {
+		if f.Msg.Ctrl != nil && strings.HasPrefix(f.Msg.Ctrl.Topic, "grp") {
+			x.grp = f.Msg.Ctrl.Topic
+		}
+	}
+	if code, _ := x.cl["m"].Req(`{"sub":{"id":"$ID","topic":"%s"}}`, x.grp); code != 200 {
+		vsched.Fail("harness", fmt.Sprintf("sub m: %d", code))
+	}
+	for _, n := range []string{"o", "m"} {
+		if code, _ := x.cl[n].Req(`{"sub":{"id":"$ID","topic":"me"}}`); code != 200 {
+			vsched.Fail("harness", fmt.Sprintf("sub me %s: %d", n, code))
+		}
+	}
+	os.MkdirAll(x.dir, 0o777)
+	for _, c := range x.cl {
+		c.Take()
+	}
+	return x
+}
+
+func vfC16FExec(hist []int, last bool) vfXResult {
+	var res vfXResult
+	res.Counts = map[string]int64{}
+	x := vfC16FSetup()
+	m := &vfC16FModel{Msgs: map[int]*vfC16FMsg{}, TopicAlive: true}
+	nup := 0
+	for i, h := range hist {
+		op := vfC16FOps[h]
+		isLast := i == len(hist)-1
+		site := op.site()
+		bad := func(key, what string, extra map[string]any) {
+			if !isLast {
+				return
+			}
+			d := map[string]any{"op": op.Name, "files": x.w.db.DumpTables(true, "files", "filelinks"), "dir": vfC16Ls(x.dir)}
+			for k, v := range extra {
+				d[k] = v
+			}
+			res.Violations = append(res.Violations, vfXViolation{Key: key, What: op.Name + ": " + what, Detail: d})
+		}
+		code := 0
+		collect := map[*vfC16FUp]bool{} // uploads this gc run must remove
+		switch op.Kind {
+		case "upload":
+			nup++
+			content := vfC16Content("png", 300+nup)
+			up, c := x.upload(x.users[op.User], content, "image/png")
+			code = c
+			if up == nil {
+				bad("C16:valid-request-refused:upload:files", fmt.Sprintf("a valid upload was answered %d", c), nil)
+				break
+			}
+			u := &vfC16FUp{N: nup, ID: up.ID, URL: up.URL, Bytes: content, Loc: up.Loc}
+			m.Ups = append(m.Ups, u)
+			m.Slot[op.Slots[0]], m.SlotURL[op.Slots[0]] = u, up.URL
+		case "failed":
+			nup++
+			rec := x.rawRecord(x.users[op.User], vfC16Content("png", 300+nup), "fail", false)
+			m.Slot[op.Slots[0]], m.SlotURL[op.Slots[0]] = nil, rec.URL
+		case "pub":
+			var urls []string
+			var att []*vfC16FUp
+			for _, s := range op.Slots {
+				urls = append(urls, m.url(s))
+				if u := m.live(s); u != nil {
+					att = append(att, u)
+				}
+			}
+			ju, _ := json.Marshal(urls)
+			before := map[int]bool{}
+			for _, row := range x.w.db.Messages(x.grp) {
+				before[row.SeqId] = true
+			}
+			code, _ = x.cl[op.User].Req(`{"pub":{"id":"$ID","topic":"%s","content":"with attachments"},"extra":{"attachments":%s}}`, x.grp, string(ju))
+			for _, row := range x.w.db.Messages(x.grp) {
+				if !before[row.SeqId] && row.DelId == 0 {
+					// the message exists: everything it lists which is an upload must be linked to it
+					m.Msgs[row.SeqId] = &vfC16FMsg{Att: att}
+					if code >= 400 {
+						res.Counts["message stored although the publish was answered with an error"]++
+					}
+				}
+			}
+		case "tavatar", "uavatar":
+			s := op.Slots[0]
+			u := m.url(s)
+			ref, avatar, topic, fn := &m.TopicRef, &m.TopicAvatar, x.grp, "G"
+			if op.Kind == "uavatar" {
+				ref, avatar, topic, fn = &m.UserRef, &m.UserAvatar, "me", "m"
+			}
+			code, _ = x.cl[op.User].Req(`{"set":{"id":"$ID","topic":"%s","desc":{"public":{"fn":"%s","photo":{"ref":"%s"}}}},"extra":{"attachments":["%s"]}}`, topic, fn, u, u)
+			if code/100 == 2 && (op.Kind == "uavatar" || m.TopicAlive) && *ref != u {
+				*ref = u
+				prev := *avatar
+				if nu := m.live(s); nu != nil {
+					*avatar = nu
+				} else if prev != nil {
+					// The update names no upload. The property does not say what becomes of the previous
+					// avatar's link: follow the implementation (and count it).
+					want := "topic"
+					if op.Kind == "uavatar" {
+						want = "user"
+					}
+					still := false
+					for _, l := range vfC16FActualLinks(x)[prev.ID] {
+						if l == want {
+							still = true
+						}
+					}
+					if still {
+						res.Counts["tolerated: avatar replaced by a non-upload keeps the previous link"]++
+					} else {
+						res.Counts["tolerated: avatar replaced by a non-upload drops the previous link"]++
+						*avatar = nil
+					}
+				}
+			}
+		case "delmsg":
+			code, _ = x.cl[op.User].Req(`{"del":{"id":"$ID","topic":"%s","what":"msg","hard":true,"delseq":[{"low":%d}]}}`, x.grp, op.Arg)
+		case "deltopic":
+			code, _ = x.cl[op.User].Req(`{"del":{"id":"$ID","topic":"%s","what":"topic","hard":true}}`, x.grp)
+		case "gc":
+			cutoff := vsched.PeekNow().Add(time.Duration(op.Arg) * time.Hour)
+			for _, u := range m.Ups {
+				if !u.Gone && len(m.links(u)) == 0 && (op.Arg > 0 || u.Old) {
+					collect[u] = true
+				}
+			}
+			if err := store.Files.DeleteUnused(cutoff, 100); err != nil {
+				bad("C16:gc-error", "DeleteUnused failed: "+err.Error(), nil)
+				code = 500
+			}
+			vsched.Quiesce()
+		case "age":
+			vsched.Advance(2 * time.Hour)
+			for _, u := range m.Ups {
+				u.Old = true
+			}
+		}
+		// deletions are read off the store: a message / the topic which no longer exists holds no link
+		rows := map[int]bool{}
+		for _, row := range x.w.db.Messages(x.grp) {
+			rows[row.SeqId] = row.DelId == 0
+		}
+		for s, msg := range m.Msgs {
+			if !rows[s] {
+				msg.Deleted = true
+			}
+		}
+		if tr := x.w.db.Topic(x.grp); tr == nil || tr.State == types.StateDeleted {
+			m.TopicAlive = false
+		}
+
+		// ---- compare the store and the directory with the model ------------------------------
+		actual := map[types.Uid]types.FileDef{}
+		for _, fd := range x.w.db.Files() {
+			actual[fd.Uid()] = fd
+		}
+		known := map[types.Uid]*vfC16FUp{}
+		for _, u := range m.Ups {
+			known[u.ID] = u
+		}
+		for _, u := range m.Ups {
+			if u.Gone {
+				continue
+			}
+			fd, have := actual[u.ID]
+			switch {
+			case collect[u] && have:
+				bad("C16:gc-kept-unlinked-upload", fmt.Sprintf("upload #%d (old=%v) has no link and is older than the cut-off, yet its record survived", u.N, u.Old), nil)
+			case collect[u]:
+				u.Gone = true
+				if isLast {
+					res.Counts["uploads collected by the judged gc run"]++
+				}
+			case !have && op.Kind == "gc":
+				if l := m.links(u); len(l) > 0 {
+					bad("C16:gc-removed-linked-upload:"+strings.SplitN(l[0], ":", 2)[0], fmt.Sprintf("upload #%d is linked to %v and was removed", u.N, l), nil)
+				} else {
+					bad("C16:gc-removed-young-upload", fmt.Sprintf("upload #%d is younger than the cut-off and was removed", u.N), nil)
+				}
+				u.Gone = true
+			case !have:
+				bad("C16:upload-record-lost:"+site, fmt.Sprintf("the record of upload #%d disappeared", u.N), nil)
+				u.Gone = true
+			case fd.Status != types.UploadCompleted || fd.Size != int64(len(u.Bytes)):
+				bad("C16:upload-record-changed:"+site, fmt.Sprintf("upload #%d: status %d size %d", u.N, fd.Status, fd.Size), nil)
+			}
+		}
+		for id := range actual {
+			if known[id] == nil {
+				bad("C16:unexpected-record:"+site, "a file record which is not a completed upload exists: "+id.String(), nil)
+			} else if known[id].Gone {
+				bad("C16:collected-record-reappeared:"+site, fmt.Sprintf("upload #%d", known[id].N), nil)
+			}
+		}
+		onDisk := map[string][]byte{}
+		ents, _ := os.ReadDir(x.dir)
+		for _, e := range ents {
+			b, _ := os.ReadFile(filepath.Join(x.dir, e.Name()))
+			onDisk[e.Name()] = b
+		}
+		for _, u := range m.Ups {
+			name := filepath.Base(u.Loc)
+			b, have := onDisk[name]
+			delete(onDisk, name)
+			switch {
+			case u.Gone && have:
+				bad("C16:file-bytes-left-after-gc", fmt.Sprintf("upload #%d was collected, its %d bytes are still in the upload directory", u.N, len(b)), nil)
+			case !u.Gone && !have:
+				bad("C16:file-bytes-lost:"+site, fmt.Sprintf("upload #%d has a record but no bytes", u.N), nil)
+			case !u.Gone && !bytes.Equal(b, u.Bytes):
+				bad("C16:file-bytes-changed:"+site, fmt.Sprintf("upload #%d", u.N), nil)
+			}
+		}
+		var stray []string
+		for name := range onDisk {
+			stray = append(stray, name)
+		}
+		sort.Strings(stray)
+		if len(stray) > 0 {
+			bad("C16:stray-file:"+site, fmt.Sprintf("files which belong to no upload: %v", stray), nil)
+		}
+		act := vfC16FActualLinks(x)
+		for _, u := range m.Ups {
+			if u.Gone {
+				continue
+			}
+			exp, got := m.links(u), act[u.ID]
+			delete(act, u.ID)
+			if fmt.Sprint(exp) == fmt.Sprint(got) {
+				if isLast {
+					res.Counts["link sets compared equal (judged step)"]++
+					if op.Kind == "gc" && len(exp) > 0 {
+						res.Counts["linked uploads which survived the judged gc run"]++
+					}
+				}
+				continue
+			}
+			inGot := map[string]bool{}
+			for _, l := range got {
+				inGot[l] = true
+			}
+			inExp := map[string]bool{}
+			for _, l := range exp {
+				inExp[l] = true
+				if !inGot[l] {
+					if op.Kind == "pub" || op.Kind == "tavatar" || op.Kind == "uavatar" {
+						bad("C16:attachment-not-linked:"+site, fmt.Sprintf("upload #%d must be linked to %s, it is linked to %v", u.N, l, got), nil)
+					} else {
+						bad("C16:link-lost:"+site, fmt.Sprintf("upload #%d lost its link to %s, it is linked to %v", u.N, l, got), nil)
+					}
+					// follow the implementation from here on
+					switch {
+					case l == "topic":
+						m.TopicAvatar = nil
+					case l == "user":
+						m.UserAvatar = nil
+					case strings.HasPrefix(l, "msg:"):
+						var s int
+						fmt.Sscanf(l, "msg:%d", &s)
+						if msg := m.Msgs[s]; msg != nil {
+							var keep []*vfC16FUp
+							for _, a := range msg.Att {
+								if a != u {
+									keep = append(keep, a)
+								}
+							}
+							msg.Att = keep
+						}
+					}
+				}
+			}
+			for _, l := range got {
+				if !inExp[l] {
+					if op.Kind == "delmsg" || op.Kind == "deltopic" || op.Kind == "tavatar" || op.Kind == "uavatar" {
+						bad("C16:link-survives-deletion:"+site, fmt.Sprintf("upload #%d is still linked to %s (model: %v)", u.N, l, exp), nil)
+					} else {
+						bad("C16:unexpected-link:"+site, fmt.Sprintf("upload #%d is linked to %s (model: %v)", u.N, l, exp), nil)
+					}
+					u.Extra = append(u.Extra, l)
+				}
+			}
+		}
+		if len(act) > 0 {
+			bad("C16:link-to-non-upload:"+site, fmt.Sprintf("links of files which are not uploads: %v", act), nil)
+		}
+		if isLast {
+			res.Outcome = fmt.Sprintf("%s:%d", op.Kind, code/100)
+			res.Obs = fmt.Sprintf("%d", code)
+		}
+	}
+	// canonical state
+	var ups []string
+	for _, u := range m.Ups {
+		if u.Gone {
+			continue
+		}
+		slots := ""
+		for s := range m.Slot {
+			if m.Slot[s] == u {
+				slots += fmt.Sprintf("f%d", s+1)
+			}
+		}
+		seen := map[string]bool{}
+		var ls []string
+		for _, l := range m.links(u) {
+			var s int
+			if n, _ := fmt.Sscanf(l, "msg:%d", &s); n == 1 && s > 2 {
+				l = "msg:late"
+			}
+			if !seen[l] {
+				seen[l] = true
+				ls = append(ls, l)
+			}
+		}
+		sort.Strings(ls)
+		ups = append(ups, fmt.Sprintf("{slot=%s old=%v links=%v}", slots, u.Old, ls))
+	}
+	sort.Strings(ups)
+	msgState := func(s int) string {
+		if msg := m.Msgs[s]; msg != nil {
+			if msg.Deleted {
+				return "deleted"
+			}
+			return "live"
+		}
+		for _, row := range x.w.db.Messages(x.grp) {
+			if row.SeqId == s {
+				return "row"
+			}
+		}
+		return "none"
+	}
+	stuck := false
+	if t := vfTopic(x.grp); t != nil {
+		if tr := x.w.db.Topic(x.grp); tr != nil && tr.SeqId != t.lastID {
+			stuck = true
+		}
+	}
+	res.Key = fmt.Sprintf("ups=%v f1=%v f2=%v msg1=%s msg2=%s topic=%v tref=[%v %v] uref=%v seq-diverged=%v loaded=%v",
+		ups, m.live(0) != nil, m.live(1) != nil, msgState(1), msgState(2), m.TopicAlive,
+		m.TopicRef == m.url(0), m.TopicRef == m.url(1), m.UserRef == m.url(1), stuck, vfTopic(x.grp) != nil)
+	return res
+}
+
+// vfC16FActualLinks renders the stored links per file: "msg:<seq>", "topic", "user".
+func vfC16FActualLinks(x *vfC16FWorld) map[types.Uid][]string {
+	out := map[types.Uid][]string{}
+	for _, l := range x.w.db.FileLinks() {
+		var s string
+		switch {
+		case l.MsgId != 0:
+			s = fmt.Sprintf("msg:%d", l.MsgSeqId)
+			if l.MsgTopic != x.grp {
+				s = "msg:" + l.MsgTopic + fmt.Sprintf(":%d", l.MsgSeqId)
+			}
+		case l.Topic != "":
+			s = "topic"
+			if l.Topic != x.grp {
+				s = "topic:" + l.Topic
+			}
+		default:
+			s = "user"
+			if l.User != x.users["m"].uid {
+				s = "user:" + l.User.String()
+			}
+		}
+		out[l.File] = append(out[l.File], s)
+	}
+	for k := range out {
+		sort.Strings(out[k])
+	}
+	return out
+}
+
+func init() {
+	vfXModels["files"] = &vfXModel{Name: "files", NumOps: len(vfC16FOps), OpName: func(i int) string { return vfC16FOps[i].Name },
+		Exec: vfC16FExec, MaxDepth: func(th bool) int {
+			// the search is cheap (depth 5 is ~7000 executions): deeper than the planned 3 / 5
+			if th {
+				return 8
+			}
+			return 5
+		}}
+}
+
+func TestVerifC16Files(t *testing.T) {
+	base := vfC16NewBase("files")
+	defer os.RemoveAll(base)
+	vfXSearch(t, "C16", "files", "files")
 }
